@@ -351,12 +351,12 @@ func (p *Pkg) unionDomain(t *yang.YangType) []Value {
 		switch m.Kind {
 		case yang.Yint8, yang.Yint16, yang.Yint32, yang.Yint64:
 			bits := map[yang.TypeKind]int{yang.Yint8: 8, yang.Yint16: 16, yang.Yint32: 32, yang.Yint64: 64}[m.Kind]
-			out = append(out, Value(fmt.Sprintf("i%d:-7", bits)))
+			out = append(out, Value(fmt.Sprintf("i%d:-7", bits)), Value(fmt.Sprintf("i%d:0", bits)))
 		case yang.Yuint8, yang.Yuint16, yang.Yuint32, yang.Yuint64:
 			bits := map[yang.TypeKind]int{yang.Yuint8: 8, yang.Yuint16: 16, yang.Yuint32: 32, yang.Yuint64: 64}[m.Kind]
-			out = append(out, Value(fmt.Sprintf("u%d:200", bits)))
+			out = append(out, Value(fmt.Sprintf("u%d:200", bits)), Value(fmt.Sprintf("u%d:0", bits)))
 		case yang.Ystring:
-			for _, c := range []string{"zq", "z q/]"} {
+			for _, c := range []string{"zq", "z q/]", ""} {
 				if lenOK(m.Length, utf8.RuneCountInString(c)) {
 					out = append(out, Value("str:"+c))
 				}
